@@ -123,6 +123,11 @@ func (g *schemaGen) column(name string) *schema.Column {
 		}
 		if g.r.Chance(1, 2) {
 			c.SetDefault(&schema.Literal{V: g.lit(g.text())})
+			if d != "sqlite" && g.r.Chance(1, 4) {
+				// the unquoted form (what an HCL document gives: default = "text"); the planner quotes it - whatever
+				// the text looks like (a letter and an apostrophe in front is no typed literal)
+				c.SetDefault(&schema.Literal{V: hx.Pick(g.r, []string{g.text(), "n'importe quoi", "N'Djamena", "b'day", "x'mas", "X'", "it's", "0xyz", "e'x"})})
+			}
 			if d == "sqlite" && g.r.Chance(1, 3) {
 				// the double-quoted form the SQLite inspector keeps for DEFAULT "..."; the planner re-quotes it
 				txt := g.text()
